@@ -101,6 +101,11 @@ def obsOfJson (j : Json) : R Obs := do
   return { k := ← fStr j "k", tr := ← optTR j "tr", net := ← netOfJson (← jget j "net"),
            err := (jopt j "err").bind (fun x => x.getBool?.toOption) |>.getD false }
 
+/-- rollout `j`'s worker adds / removes its progressing finalizer (an add is refused on an object in deletion) -/
+def otherWrites (j : Nat) (add : Bool) (t : TRO) : Option TRO :=
+  stored { t with holders := if add then (if t.deleting || j ∈ t.holders then t.holders else insertSorted j t.holders)
+                             else t.holders.filter (· ≠ j) }
+
 def handle : Handler := fun op inp impl => do
   match op with
   | "bstep" =>
@@ -109,17 +114,39 @@ def handle : Handler := fun op inp impl => do
     let l ← labelOfJson lj
     let kind ← fStr lj "k"
     let src := (jopt inp "src").bind (fun x => x.getStr?.toOption) |>.getD "?"
-    let modelStep := step pre l
+    -- `race {j, add}` on a Rollout reconcile: rollout j's worker adds / removes ITS progressing finalizer while this reconcile
+    -- writes its own; the first Update meets a 409 and `retry.RetryOnConflict` re-reads, so the outcome is this reconcile's
+    -- finalizer change applied to the object the other writer left (the two changes commute: different names).  Only a
+    -- reconcile that writes the object's finalizers meets the other writer.
+    let race : Option (Nat × Bool) := match jopt lj "race" with
+      | some r => (match (jopt r "j").bind (fun x => x.getNat?.toOption), (jopt r "add").bind (fun x => x.getBool?.toOption) with
+                   | some j, some a => some (j, a)
+                   | _, _ => none)
+      | none => none
+    let modelStep := match step pre l, race with
+      | some s', some (j, add) =>
+        if holdersOf s'.tr != holdersOf pre.tr then
+          some { s' with tr := s'.tr.bind (otherWrites j add) }
+        else some s'
+      | m, _ => m
     let model := match modelStep with
       | none => mkObj [("panic", strJ "?")]
-      | some s' => mkObj (("js", jsToJson s') :: infoOf pre l)
+      | some s' => mkObj (("js", jsToJson s') :: infoOf pre l ++
+          (if race.isSome then [("raced", boolJ (match step pre l with | some s1 => holdersOf s1.tr != holdersOf pre.tr | none => false))] else []))
     let implPanic := (jopt impl "panic").isSome
     let mut tags := [s!"label:{kind}", s!"src:{src}", phaseTag pre.tr, s!"ros:{pre.ros.length}", s!"holders:{(holdersOf pre.tr).length}"]
+    if race.isSome then
+      tags := tags ++ [match jopt impl "raced" with | some (.bool true) => "race:conflict-met-a-concurrent-finalizer-write" | _ => "race:no-finalizer-write"]
     let mut holds : List (String × Bool) := [("C09.bind_no_panic", !implPanic || modelStep.isNone)]
     if implPanic then
       return { model := model, holds := holds, tags := "panic" :: tags }
     let post ← jsOfJson (← jget impl "js")
     let ierr := (jopt impl "err").bind (fun x => x.getBool?.toOption) |>.getD false
+    -- a raced reconcile is judged against the object the concurrent writer left (the harness reports whether the race happened)
+    let implRaced := match jopt impl "raced" with | some (.bool true) => true | _ => false
+    let pre : JS := match race with
+      | some (j, add) => if implRaced then { pre with tr := pre.tr.bind (otherWrites j add) } else pre
+      | none => pre
     -- every label: the object disappears only in deletion with its last finalizer
     holds := holds ++ [("C18.bind_held_stays_visible", staysVisible l pre.tr post.tr)]
     match l with
